@@ -194,6 +194,7 @@ func runNodeHistory(tp *sim.Tape, tier, prop string, o *runOut) {
 		before := nd.RoundDump(f.Round)
 		beforeSnap := nd.Snapshot()
 		beforePh := m.Ph
+		lazyBefore := m.LazyCancelled && m.Ph == PhReady
 		nLog := len(nd.Log.Lines)
 		nSent := len(nd.Board.Sent)
 		nOps := len(pending(nd))
@@ -222,6 +223,17 @@ func runNodeHistory(tp *sim.Tape, tier, prop string, o *runOut) {
 		}
 		if desync {
 			continue
+		}
+		// "the round returns to idle": once any further message of the round
+		// was processed after a batch was cancelled, the persisted round must
+		// no longer be in the cancelled-batch state
+		if prop == "C06" && lazyBefore && strings.Contains(st, "cancelled") {
+			fail(o, "C06", "cancelled-batch-state-survives-next-message/"+e.Kind.String(),
+				fmt.Sprintf("a batch was cancelled, then %s was processed (err=%v), and the persisted round is still %s instead of idle; history: %s", e, perr != nil, st, strings.Join(hist, " ")))
+			break
+		}
+		if lazyBefore {
+			o.stats.Probe("message-after-cancelled-batch")
 		}
 		switch r.Exp {
 		case ExpReject:
